@@ -170,3 +170,64 @@ theorem readStr_char_hit (cfg : Cfg) (bs : Bytes) (q : Nat) (b : UInt8) (hq1 : 1
   simp [encStr_length, this]
 
 end Morfuse.Archive
+
+namespace Morfuse.Archive
+
+theorem prefix_eq_of_length {α : Type} {a l : List α} (hp : a <+: l) (hl : a.length = l.length) : a = l := by
+  obtain ⟨t, rfl⟩ := hp
+  have : t = [] := by
+    apply List.eq_nil_of_length_eq_zero
+    simp only [List.length_append] at hl; omega
+  simp [this]
+
+/-- a class name with one character replaced by a character that differs even ignoring case no longer
+    resolves to the class -/
+theorem getClass_damaged (classes : List Bytes) (cls : Bytes) (j : Nat) (b : UInt8) (hj : j < cls.length)
+    (hb : upc b ≠ upc cls[j]) : getClass classes (cls.set j b) ≠ some cls := by
+  intro h
+  unfold getClass at h
+  split at h
+  · simp at h
+  · have he := List.find?_some h
+    simp only [eqi, beq_iff_eq] at he
+    have hlen : (cstr (cls.set j b)).length = cls.length := by
+      have := congrArg List.length he
+      simpa using this.symm
+    have hpre : cstr (cls.set j b) <+: cls.set j b := List.takeWhile_prefix _
+    have hall : cstr (cls.set j b) = cls.set j b := prefix_eq_of_length hpre (by simp [hlen])
+    rw [hall] at he
+    have := congrArg (fun l => l[j]?) he
+    simp [hj] at this
+    exact hb this.symm
+
+end Morfuse.Archive
+
+namespace Morfuse.Archive
+
+mutual
+theorem layItem_length : (it : Item) → (t : List Lbl) → (layItem it).length = (encItem t it).2.length
+  | .prim p v, t => by simp [layItem, layPrim, encItem]; omega
+  | .raw bs, t => by simp [layItem, encItem]; omega
+  | .str bs, t => by simp [layItem, encItem, layStr_length]
+  | .ptr safe o, t => by simp only [layItem, encItem]; split <;> simp
+  | .position o, t => by simp [layItem, layPrim, encItem]; omega
+  | .object o cls body, t => by
+    simp only [layItem, encItem, List.length_append, layStr_length, layItems_length body (addUnique t o).1]
+    simp [layPrim]; omega
+theorem layItems_length : (w : List Item) → (t : List Lbl) → (layItems w).length = (encItems t w).2.length
+  | [], t => by simp [layItems, encItems]
+  | i :: is, t => by
+    simp only [layItems, encItems, List.length_append, layItem_length i t, layItems_length is (encItem t i).1]
+end
+
+theorem det_not_data {c : PC} (h : c.det) : c ≠ .data ∧ c ≠ .idx ∧ c ≠ .len := by
+  rcases h with rfl | rfl | rfl <;> simp
+
+theorem bcond_ne {c : PC} {old b : UInt8} (hc : c ≠ .cls) (h : bcond c old b) : b ≠ old := by
+  simpa [bcond, hc] using h
+
+theorem toInt64_ne (v L : Nat) (hv : v < 2 ^ 64) (hL : L < 2 ^ 63) (hne : v ≠ L) : toInt64 v ≠ (L : Int) := by
+  unfold toInt64
+  split <;> omega
+
+end Morfuse.Archive
